@@ -14,5 +14,5 @@ CONSTANTS
   CloseKinds = {"localB", "endpointB"}
   Deviations = {}
 SPECIFICATION Spec
-INVARIANTS TypeOK InOrderExactlyOnce FinAfterLastByte FlowControl NoStrandedFuture NoLostWakeup ClosedTablesEmpty ClosedNobodyPending
+INVARIANTS TypeOK InOrderExactlyOnce FinAfterLastByte FlowControl NoStrandedFuture NoLostWakeup ClosedTablesEmpty ClosedNobodyPending HangFree
 PROPERTIES ErrorAfterClose
